@@ -20,7 +20,9 @@ CONFIRMED ON THE REAL CODE and exhibited by the models (kernel-checked counter-e
        `_sum`, the multiprocess collector reports it (hypothesis `hF14`; `negative_first_bound_sum_differs`);
   F28  `remove()` / `clear()`: in multiprocess mode the library only warns ("Removal of labels has not been implemented
        in multi-process mode yet"); the entries stay in the file and a re-created child continues from them
-       (hypothesis `NoRemoval`; `remove_not_propagated`, `recreated_child_continues`);
+       (hypothesis `NoRemoval`; `remove_not_propagated`, `recreated_child_continues`).  F28 is also CHARACTERISED:
+       `backends_equivalent_with_removals_partial` (section 5) proves for EVERY history that the multiprocess
+       collection is the in-process collection of the history with its removals erased;
   F29  bucket layouts with numerically equal bounds (`-0.0` and `0.0`, or a repeated bound): the collector merges the
        buckets by `float(le)`, the in-process path lists them separately (hypothesis `BoundsOK.nodup/sorted`; outside
        the collector model, whose bounds are compared by the abstract `lt`).
@@ -41,6 +43,7 @@ the same text — `floatToGoString` is a fixpoint on rendered bounds; `float`/`r
 is a hypothesis, validated by the harness on every bound of every generated layout.
 -/
 import PromVerif.Lemmas.BackendsCompose
+import PromVerif.Lemmas.BackendsEraseRun
 import PromVerif.Props.C01
 
 namespace PromVerif.Props.C12
@@ -240,9 +243,50 @@ theorem families_agree_partial (bo : BOps B) (ds : List (MDecl V)) (bsOf : MDecl
     exact this
   exact families_meta bo ds bsOf hwf pid hpid _ ps' _ hc hlen
 
+/-! ## 5. histories WITH remove() / clear(): the file-backed store behaves as if removals never happened (F28) -/
+
+/-- **The directory does not see removals.**  `remove()` / `clear()` drop child OBJECTS only (the library warns that
+removal is not implemented in multiprocess mode); a later `labels()` constructs new `MmapedValue`s on the existing
+keys, which re-read the entries (C09: the youngest object on a key is coherent), and updates continue from there.  So
+the file-backed run of ANY history leaves exactly the directory of the run of the history with every remove/clear
+erased (the erased run's clock shows at each kept call what the full run's clock shows there). -/
+theorem directory_ignores_removals (ds : List (MDecl V)) (hwf : WFAll ds) (pid : Str) (clock : Nat → V)
+    (hclk : ∀ n, (voOf V).truthy (clock n) = true ∧ Val.lt (Val.zero : V) (clock n) = true)
+    (h : List (Model.Metrics.Op V)) :
+    (runMmap ds pid clock h).disk = (runMmap ds pid (eraseClock clock h) (erase h)).disk :=
+  erase_same_disk ds hwf pid clock hclk h
+
+/-
+FULL STATEMENT (of the property, for histories with removals): multiprocess = in-process of the SAME history — false
+(F28, `remove_not_propagated`).  What holds instead, and is proved here for EVERY history: multiprocess = in-process of
+the history with its removals erased.  MISSING PART relative to the property: the removals themselves; the other
+exclusions are those of `backends_equivalent_partial` (F14 `hF14`, F29 / `BoundsOK`, preconditions in `hwf`).
+-/
+/-- **F28 characterised.**  For every history — `remove()` and `clear()` included — the normalised multiprocess
+collection is the normalised IN-PROCESS collection of the history in which every remove/clear is erased: removed
+children stay exposed with their last values, a re-created child continues from the old value, a mostrecent gauge set
+before its removal keeps its set-time. -/
+theorem backends_equivalent_with_removals_partial (bo : BOps B) (ds : List (MDecl V)) (bsOf : MDecl V → List B)
+    (hwf : WFAllB bo ds bsOf)
+    (hF14 : ∀ d ∈ ds, ∀ bs, d.decl.kind = Kind.histogram bs → Model.Metrics.sumExposed (bs.map (·.1)) = true)
+    (hz : ∀ a : V, Val.add Val.zero a = a) (hlt : Val.lt (Val.zero : V) Val.zero = false)
+    (pid : Str) (hpid : '_' ∉ pid) (clock : Nat → V)
+    (hclk : ∀ n, (voOf V).truthy (clock n) = true ∧ Val.lt (Val.zero : V) (clock n) = true)
+    (h : List (Model.Metrics.Op V)) :
+    ∃ out, mpCollect bo (runMmap ds pid clock h) = .ok out ∧
+      ∀ kv, kv ∈ normalise ds (neverSetOf ds (erase h)) (flatMp out) ↔
+        kv ∈ normalise ds (neverSetOf ds (erase h)) (flatMutex ds (Model.Metrics.collect (runMutex ds (erase h)))) := by
+  obtain ⟨out, h1, h2⟩ := backends_equivalent_partial bo ds bsOf hwf hF14 hz hlt pid hpid (eraseClock clock h)
+    (eraseClock_pos clock hclk h) (erase h) (erase_noRemoval h)
+  refine ⟨out, ?_, h2⟩
+  have hd := erase_same_disk ds hwf.toWFAll pid clock hclk h
+  unfold mpCollect files at h1 ⊢
+  rw [hd]
+  exact h1
+
 end PromVerif.Props.C12
 
-/-! ## 5. non-vacuity and the counter-examples behind the hypotheses (`V := Int`) -/
+/-! ## 6. non-vacuity and the counter-examples behind the hypotheses (`V := Int`) -/
 
 namespace PromVerif.Props.C12.Example
 open PromVerif.Py PromVerif.Model.Metrics PromVerif.Model.Backends PromVerif.Spec.Backends PromVerif.Lemmas.Backends
@@ -402,5 +446,46 @@ mostrecent child (7; the never-set child is absent from both), the `all` gauge w
 count/sum (1, 6), histogram buckets 0/1/2, count 2, sum 12 -/
 example : (bothSides bo3 ds hist).1.length = 11 ∧ (bothSides bo3 ds hist).2.length = 11 ∧
     ∀ kv ∈ (bothSides bo3 ds hist).1, kv ∈ (bothSides bo3 ds hist).2 := by decide
+
+/-! ### histories with removals: `backends_equivalent_with_removals_partial` applies to any history -/
+
+/-- a history with `remove` and `clear` between updates of the same children -/
+def histR : List (Op Int) :=
+  [ .call 0 (.labels [.str "x".toList, .str "y".toList] []) (.inc 2),
+    .remove 0 [.str "x".toList, .str "y".toList],
+    .call 0 (.labels [.str "x".toList, .str "y".toList] []) (.inc 1),
+    .call 1 (.labels [.str "once".toList] []) (.set 7),
+    .clear 1,
+    .call 1 (.labels [.str "once".toList] []) .touch,
+    .call 4 (.labels [.str "GET".toList] []) (.observe 5),
+    .clear 4,
+    .call 4 (.labels [.str "GET".toList] []) (.observe 7) ]
+
+theorem example_with_removals : ∃ out, mpCollect bo3 (runMmap ds "7".toList clock histR) = .ok out ∧
+    ∀ kv, kv ∈ normalise ds (neverSetOf ds (erase histR)) (flatMp out) ↔
+      kv ∈ normalise ds (neverSetOf ds (erase histR)) (flatMutex ds (collect (runMutex ds (erase histR)))) :=
+  PromVerif.Props.C12.backends_equivalent_with_removals_partial bo3 ds bsOf ds_wf ds_f14 int_zero_add int_lt_irrefl
+    "7".toList (by decide) clock clock_pos histR
+
+/-- the multiprocess collection of `h` and the in-process collection of the ERASED history, normalised alike -/
+def sidesErased (bo : BOps Nat) (ds : List (MDecl Int)) (h : List (Op Int)) : List (SKey × Int) × List (SKey × Int) :=
+  let ns := neverSetOf ds (erase h)
+  let a := normalise ds ns (flatMutex ds (collect (runMutex ds (erase h))))
+  match mpCollect bo (runMmap ds "7".toList clock h) with
+  | .ok out => (a, normalise ds ns (flatMp out))
+  | .error _ => (a, [])
+
+set_option maxRecDepth 100000 in
+set_option synthInstance.maxSize 2000 in
+/-- … and what it computes: through the files the re-created counter child shows 2 + 1, the cleared mostrecent gauge
+still shows 7 (it keeps its set-time), the cleared histogram child counts both observations — exactly the in-process
+collection of the erased history; the in-process collection of the SAME history shows 1 for the counter child -/
+example : (∀ kv ∈ (sidesErased bo3 ds histR).1, kv ∈ (sidesErased bo3 ds histR).2) ∧
+    (∀ kv ∈ (sidesErased bo3 ds histR).2, kv ∈ (sidesErased bo3 ds histR).1) ∧
+    (("c_total".toList, [("k".toList, "y".toList), ("l".toList, "x".toList)]), (3 : Int)) ∈ (sidesErased bo3 ds histR).2 ∧
+    (("g".toList, [("l".toList, "once".toList)]), (7 : Int)) ∈ (sidesErased bo3 ds histR).2 ∧
+    (("h_count".toList, [("method".toList, "GET".toList)]), (2 : Int)) ∈ (sidesErased bo3 ds histR).2 ∧
+    (("c_total".toList, [("k".toList, "y".toList), ("l".toList, "x".toList)]), (1 : Int)) ∈ (bothSides bo3 ds histR).1 := by
+  decide
 
 end PromVerif.Props.C12.Example
